@@ -112,7 +112,7 @@ def single_case(ctx, case):
         slack_ok = t - now < THR
         for final in ('d1', 'root', 'outsider'):
             pairs = (('00', '00'), ('01', '01'), ('01', '00'), ('00', '01'), ('80', 'fe'))
-            if dn == 1 and final == 'd1':
+            if dn == -1 and final == 'd1':
                 pairs += tuple(('%02x' % (1 << b), '%02x' % (1 << b)) for b in range(1, 8)) + \
                     tuple(('%02x' % (1 << b), '%02x' % (0xff ^ (1 << b))) for b in range(1, 8)) + (('5a', '5a'), ('a5', 'e7'))
             for fl, allowed in pairs:
